@@ -1891,7 +1891,14 @@ class GramStack(Stack):
             if self.txPkts:
                 self._serviceOneTxPkt(laters, blockeds)
             while laters:
-                self.txPkts.append(laters.popleft())
+                pkt, ha = laters.popleft()
+                # deferred packet goes behind the packets to other destinations
+                # so later packets to its destination must follow it to keep order
+                sames = [duple for duple in self.txPkts if duple[1] == ha]
+                for duple in sames:
+                    self.txPkts.remove(duple)
+                self.txPkts.append((pkt, ha))
+                self.txPkts.extend(sames)
 
     def transmit(self, pkt, ha=None):
         """
